@@ -29,7 +29,7 @@ def main():
     for sd in seeds:
         name = os.path.basename(sd.rstrip("/")) if "/seeded/" in os.path.abspath(sd) or "/selftest/" in os.path.abspath(sd) else sd.rstrip("/").replace("/tmp/seed/", "").replace("/out/", "-")
         patch = os.path.join(sd, "patch.diff")
-        subprocess.run(["git", "-C", wt, "checkout", "--", "."], check=True)
+        subprocess.run(["git", "-C", wt, "reset", "-q", "--hard"], check=True)
         r = subprocess.run(["git", "-C", wt, "apply", patch], capture_output=True, text=True)
         if r.returncode != 0:
             r = subprocess.run(["git", "-C", wt, "apply", "--3way", patch], capture_output=True, text=True)
@@ -43,7 +43,7 @@ def main():
         except SystemExit as e:
             print("=== %s: extraction failed: %s" % (name, e))
             table[name] = None
-            subprocess.run(["git", "-C", wt, "checkout", "--", "."], check=True)
+            subprocess.run(["git", "-C", wt, "reset", "-q", "--hard"], check=True)
             continue
         fx = F.Facts(raw)
         caught = {}
@@ -67,7 +67,7 @@ def main():
                 else:
                     print("    %s %s" % (p, v))
         table[name] = {p: sorted({v[0] if isinstance(v, tuple) else "CRASH" for v in vs}) for p, vs in sorted(caught.items())}
-        subprocess.run(["git", "-C", wt, "checkout", "--", "."], check=True)
+        subprocess.run(["git", "-C", wt, "reset", "-q", "--hard"], check=True)
     print("\nSUMMARY")
     for k, v in table.items():
         print("%-10s %s" % (k, "n/a (patch does not apply)" if v is None else (",".join(v) or "MISSED")))
